@@ -14,8 +14,11 @@ import (
 	"os"
 	"reflect"
 	"regexp"
+	"runtime"
 	"sort"
+	"strconv"
 	"strings"
+	"sync"
 	"time"
 
 	stackage "github.com/JesseCoretta/go-stackage"
@@ -322,7 +325,47 @@ type Obj struct {
 	alt bool // alternate between the "no argument" and "nil" ways of removing a closure
 	S   stackage.Stack
 	acc map[string]bool
-	log []string // consult log of the current call
+	// consult logs of the calls in flight, one per calling goroutine (the policy closure runs in the goroutine that called Push,
+	// so concurrent callers never see each other's consultations)
+	lmu  sync.Mutex
+	logs map[int64][]string
+}
+
+// goid: the id of the calling goroutine (parsed from the stack header; only used to key the consult logs)
+func goid() int64 {
+	var buf [64]byte
+	n := runtime.Stack(buf[:], false)
+	f := strings.Fields(string(buf[:n]))
+	if len(f) < 2 {
+		return 0
+	}
+	id, _ := strconv.ParseInt(f[1], 10, 64)
+	return id
+}
+
+func (o *Obj) logReset() {
+	o.lmu.Lock()
+	if o.logs == nil {
+		o.logs = map[int64][]string{}
+	}
+	delete(o.logs, goid())
+	o.lmu.Unlock()
+}
+
+func (o *Obj) logAdd(v string) {
+	o.lmu.Lock()
+	if o.logs == nil {
+		o.logs = map[int64][]string{}
+	}
+	g := goid()
+	o.logs[g] = append(o.logs[g], v)
+	o.lmu.Unlock()
+}
+
+func (o *Obj) logGet() []string {
+	o.lmu.Lock()
+	defer o.lmu.Unlock()
+	return append([]string{}, o.logs[goid()]...)
 }
 
 func NewKind(kind string, cap int) stackage.Stack {
@@ -358,7 +401,7 @@ func (o *Obj) installPolicy(acc []string) {
 		if len(x) > 0 {
 			v = Proj(x[0])
 		}
-		o.log = append(o.log, v)
+		o.logAdd(v)
 		if mine[v] {
 			return nil
 		}
@@ -610,7 +653,7 @@ func applyInner(o, d *Obj, c Call) (ret []string) {
 		}
 	}()
 	if o.acc != nil {
-		o.log = nil
+		o.logReset()
 	}
 	switch c.Op() {
 	case "Push":
@@ -626,9 +669,7 @@ func applyInner(o, d *Obj, c Call) (ret []string) {
 			names[i] = Proj(x)
 		}
 		o.S.Push(xs...)
-		if o.log != nil {
-			ret = append(ret, o.log...)
-		}
+		ret = append(ret, o.logGet()...)
 		for i, x := range xs {
 			if Proj(x) != names[i] {
 				ret = append(ret, fmt.Sprintf("CALLER-SLICE-MODIFIED[%d]:%s->%s", i, names[i], Proj(x)))
